@@ -433,7 +433,7 @@ class Unit:
             g_head = re.sub(r'\bfn\s+%s\b' % re.escape(rename or name), 'proof fn axv_reach_' + (rename or name), head, count=1)
             g_head = re.sub(r'\bfn\s+%s\b' % re.escape(name), 'proof fn axv_reach_' + (rename or name), g_head, count=1)
             g_head = re.sub(r'&\s*(\'\w+\s+)?mut\s+', '', g_head)
-            g_head = re.sub(r'&\s*(\'\w+\s+)?', '', g_head)
+            g_head = re.sub(r'&\s*(\'\w+\s+)?self\b', 'self', g_head)
             g_head = re.sub(r'\bmut\s+', '', g_head)
             req2 = re.sub(r'\bold\(\s*(\w+)\s*\)', r'\1', req)
             g0 = cur_line()
